@@ -372,3 +372,65 @@ def def_values(module, fnode, name, defs=None):
                         d.index < len(inl.elts):
                     out.append(inl.elts[d.index])
     return out
+
+
+def control_names(fnode, stmt):
+    """Names read by the tests of the if/while statements that enclose
+    `stmt` in fnode (its control dependences)."""
+    found = []
+
+    def visit(stmts, ctx):
+        for st in stmts:
+            if st is stmt:
+                found.append(set(ctx))
+                return True
+            if isinstance(st, (ast.FunctionDef, ast.AsyncFunctionDef,
+                               ast.ClassDef)):
+                continue
+            c2 = ctx
+            if isinstance(st, (ast.If, ast.While)):
+                c2 = ctx | names_in(st.test)
+            for field in ("body", "orelse", "finalbody"):
+                sub = getattr(st, field, None)
+                if isinstance(sub, list) and sub and \
+                        isinstance(sub[0], ast.stmt):
+                    if visit(sub, c2):
+                        return True
+            for h in getattr(st, "handlers", []) or []:
+                if visit(h.body, c2):
+                    return True
+        return False
+    visit(fnode.body, frozenset())
+    return found[0] if found else set()
+
+
+def alias_table(fnode, defs=None):
+    """{name: expression} for locals that are pure aliases of a component of
+    another value: `cx = chunk_size[0]`, `nx, ny, nz = size` (-> size[0] ..),
+    `s = info['size']`.  Only names with exactly one definition."""
+    defs = defs if defs is not None else local_defs(fnode)
+    out = {}
+    for name, ds in defs.items():
+        real = [d for d in ds if d.kind != "param"]
+        if len(real) != 1 or len(ds) != 1:
+            continue
+        d = real[0]
+        if d.kind != "assign" or d.value is None or d.elem:
+            continue
+        if d.index is not None:
+            if isinstance(d.value, (ast.Name, ast.Attribute, ast.Subscript)):
+                out[name] = ast.Subscript(
+                    value=_copy.deepcopy(d.value),
+                    slice=ast.Constant(value=d.index), ctx=ast.Load())
+            elif isinstance(d.value, (ast.Tuple, ast.List)) and \
+                    d.index < len(d.value.elts):
+                e = d.value.elts[d.index]
+                if isinstance(e, (ast.Name, ast.Attribute, ast.Subscript)):
+                    out[name] = e
+            continue
+        if isinstance(d.value, (ast.Subscript, ast.Attribute)) and not any(
+                isinstance(x, ast.Call) for x in ast.walk(d.value)):
+            out[name] = d.value
+    for v in out.values():
+        ast.fix_missing_locations(v)
+    return out
